@@ -156,8 +156,9 @@ def oracle(ctx, kind, p):
                 tgt = rng.choice(['b', '"s t"', '7', 'x-01', '', '"q)^("'])
                 parts.append(f"{rng.choice(['instance', 'ARG0', 'mod-of', ':op1'])}({rng.choice(['a', 'x1', 'b.c'])}{comma}{tgt})")
             s = caret.join(parts)
-        for k in range(len(s) + 1):
-            pre = s[:k]
+        tails = [s + t for t in (' x', ' (', ' ^', ' ^ ', ')', ' # c', '\n(', ' "q"', ',', ' :r', '~1')]
+        for k in range(len(s) + 1 + len(tails)):
+            pre = s[:k] if k <= len(s) else tails[k - len(s) - 1]
             ctx.current = ['str', {'s': pre}]
             acc = _text.check_parsers(ctx, pre, budget=(k % 20 == 0))
             ctx.case(pre, True)
